@@ -441,6 +441,22 @@ func (ks *Keyspace) Exec(args [][]byte) Value {
 			}
 		}
 		return ArrV(out...)
+	case "hscan":
+		// HSCAN key cursor [MATCH p] [COUNT n]: a small hash is returned in one page, as Redis does for compact encodings
+		if len(a) < 2 {
+			return errArgs(cmd)
+		}
+		o, ex, ok := ks.get(a[0], 'h')
+		if ex && !ok {
+			return wrongType
+		}
+		out := []Value{}
+		if ex && string(a[1]) == "0" {
+			for _, f := range o.HK {
+				out = append(out, BulkS(f), BulkV(cp(o.H[f])))
+			}
+		}
+		return ArrV(BulkS("0"), ArrV(out...))
 	case "hincrby":
 		if len(a) != 3 {
 			return errArgs(cmd)
